@@ -141,7 +141,8 @@ def cmp_wirein(prop, case, impl, model):
             ci = [x for x in ir if x.startswith('8:')]
             cm = [x for x in mr if x.startswith('8:')]
             readahead = last is not None and last[0] == 'M' and last[2] == 'other' and model.get('zcorrupt') == '1' and len(ir) < len(mr) and all(_reply_eq(a, b) for a, b in zip(ir, mr))
-            teardown = model.get('hitend') == '1' and len(ir) == len(mr) - 1 and mr[-1].startswith('8:') and all(_reply_eq(a, b) for a, b in zip(ir, mr))
+            teardown = (model.get('hitend') == '1' and last is not None and last[0] == 'M' and last[2] == 'limit' and len(ir) == len(mr) - 1
+                        and mr[-1].startswith('8:') and all(_reply_eq(a, b) for a, b in zip(ir, mr)))
             is1009 = lambda x: x.startswith('8:03f1')
             limit_early = (last is not None and last[0] == 'M' and last[2] == 'limit' and len(ir) >= 1 and is1009(ir[-1])
                            and not any(x.startswith('8:') for x in ir[:-1]) and len(ir) - 1 <= len(mr)
@@ -453,7 +454,29 @@ def cmp_hs_pair(prop, case, impl, model):
         return [('violation', 'hs-pair:ends-disagree', 'client holds %s, server holds %s' % (impl.get('cco'), impl.get('sco')))]
     return []
 
+def cmp_trim(prop, case, impl, model):
+    if 'PANIC' in impl:
+        return [('violation', 'trim:panic', impl['PANIC'][:300])]
+    if 'modelerror' in model:
+        return [('disagree', 'trim:setup', str(model.get('modelerror'))[:300])]
+    io, mo = (impl.get('obs') or '').split(','), (model.get('obs') or '').split(',')
+    for k in range(max(len(io), len(mo))):
+        a = io[k] if k < len(io) else '-'
+        b = mo[k] if k < len(mo) else '-'
+        if a == b:
+            continue
+        fa, fb = a.split('/'), b.split('/')
+        if len(fa) == 3 and len(fb) == 3:
+            cat = lambda f: f[0].replace('+', '').replace('-', '') + f[1].replace('-', '')
+            if cat(fa) != cat(fb):
+                return [('violation', 'trim:bytes-differ', 'after chunk %d the bytes handed downstream plus the withheld tail are %s / %s, the reference says %s / %s: a byte of the compressed message is lost, duplicated or moved' % (k, fa[0][:80], fa[1], fb[0][:80], fb[1]))]
+            if fa[1] != fb[1]:
+                return [('violation', 'trim:tail-differs', 'after chunk %d the withheld tail is %s, the reference says %s: the tail is what is dropped at the end of the message, it must be exactly the last four bytes' % (k, fa[1], fb[1]))]
+        return [('disagree', 'trim:step-differs', 'chunk %d: library %s, model %s' % (k, a[:120], b[:120]))]
+    return []
+
 COMPARE = {
+    'trim': cmp_trim,
     'hs-pair': cmp_hs_pair,
     'window': cmp_window,
     'pools': cmp_pools,
@@ -483,6 +506,8 @@ def nontrivial(suite, case, impl):
         return True
     if suite == 'pools':
         return case.get('hist', '').count('msg:') >= 2
+    if suite == 'trim':
+        return case.get('chunks', '').count(',') >= 1
     if suite == 'window':
         return 'put:' in case.get('hist', '') and case.get('hist', '').count('w:') >= 2
     if suite == 'netconn':
@@ -546,8 +571,9 @@ PROPS = {
         technique='Go->Gallina translation of validWireCloseCode + Coq proofs (all of Z; induction over histories) + differential run against a scripted raw peer',
     ),
     'C01': dict(
-        suites=['pair', 'wire-out'],
-        rule='pair suite: two LIBRARY endpoints (real Dial/Accept negotiation) for all 3x3 client/server compression modes x thresholds {default,1,64,1000} per side, each side writing a '
+        suites=['pair', 'wire-out', 'trim'],
+        rule='trim suite: the four-byte trim writer (compress.go trimLastFourBytesWriter, through a verif-tagged export) fed ARBITRARY chunkings (all pairs and many triples of sizes 0..6, random sequences up to 300 bytes per chunk) — '
+             'compress/flate itself only ever produces a few chunk shapes —: the chunks handed downstream and the withheld tail after every Write are those of Model/Window.v trim_step. pair suite: two LIBRARY endpoints (real Dial/Accept negotiation) for all 3x3 client/server compression modes x thresholds {default,1,64,1000} per side, each side writing a '
              'program of Write / Writer(chunks) messages (sizes from the boundary set 0..65537, multiples of 4096 +-1, one >= 1 MiB per 50 cases, histories > 32 KiB with takeover) while the '
              'other reads with buffer sizes {1,7,512,4096,32768,100000,ReadAll}; both wires are tapped. Judge = received list equals written list per direction (type, length, digest, order) '
              'and caller buffers unchanged (checksums). Plus the wire-out programs. non-trivial = every case; distinct = distinct case line',
